@@ -295,7 +295,17 @@ def drive(a, prop, spec, seed, binary, scratch, t_start):
                         try:
                             jf = json.load(open(jp))
                             jf["msg"] = "process died: " + m.group(1) + "\n" + crash_site(out)
-                            violations.append(("crash", jf["msg"], save_replay(prop, jf)))
+                            # the death is attributed to the journalled case only if that case kills a fresh process too
+                            # (address space of a long campaign can run out without any single case being at fault)
+                            renv, rwd = base_env(a, prop, seed, scratch, s, "confirm")
+                            renv["VERIF_REPLAY"] = jp
+                            rlp = os.path.join(rwd, "log.txt")
+                            rrc = run_binary(binary, prop, renv, min(timeout, 300), rlp).wait()
+                            rout = open(rlp, errors="replace").read()
+                            if rrc != 0 or RACE_RE.search(rout):
+                                violations.append(("crash", jf["msg"], save_replay(prop, jf)))
+                            else:
+                                inconclusive.append("shard %d died (%s) but its last journalled case passes in a fresh process: not attributed to a case" % (s, m.group(1)))
                             handled = True
                         except Exception:
                             pass
